@@ -126,23 +126,24 @@ CLAIMED.update({
 
 # sentences added to the level text of a property in later rounds (eighth / ninth round)
 ADDENDA = {
- "C05": " What the program reads back does not depend on host scheduling: no write into a command's host destination after the command was dequeued (R05.8, shared with C12).",
+ "C05": " What the program reads back does not depend on host scheduling: no write into a command's host destination after the command was dequeued (R05.8, shared with C12); ALU factories return an ALU of their own per compute unit (R05.9).",
  "C07": " Byte-valued register reads return storage of their own (R07.7).",
- "C09": " A location returned by the placement algorithm is stored in the pending slot or sent on every path (R09.8).",
+ "C09": " A location returned by the placement algorithm is stored in the pending slot or sent on every path (R09.8); a message is retrieved from a port only where it is going to be served (R09.9).",
  "C11": " No command is dequeued by the function that starts it once a request was attached to it (R11.12).",
+ "C08": " The placement algorithms hand every work-group out once (R08.5, the sibling check of R09.1).",
  "C13": " Lookups use the resolved kernel name (R13.6).",
  "C14": " The barrier release reaches every wavefront of the group's own list (R14.7).",
  "C15": " Fields stored by the request path are reset by the flush path (R15.7).",
- "C16": " Fields stored by the request path are reset by the flush path (R16.6).",
+ "C16": " Fields stored by the request path are reset by the flush path (R16.6); a finished lookup is removed from the table by identity (R16.7).",
  "C20": " Every message passed to Send is a fresh object or one that arrived through a port (R20.13).",
  "C02": " The FLAT offset is widened through int32 at every 64-bit use in the coalescer (R02.10), and the lane info of a load is matched to a transaction register by register (R02.11).",
- "C03": " Every widening of the signed FLAT/GLOBAL offset to 64 bits passes through int32 in both ALUs (R03.37; DS-only functions exempt). The input-modifier helpers are interpreted over a sign domain for the four ABS/NEG combinations (R03.38).",
- "C04": " Packed VOP3P rows decode no ABS/OMOD (R04.25); a decoder that stores the raw NEG/ABS field derives the per-source flags and the printer arm of that format reads them (R04.26); the literal size step is judged with decoder helpers expanded at their call sites (R04.5); every operand constructor returns storage of that call (R04.27).",
+ "C03": " Every widening of the signed FLAT/GLOBAL offset to 64 bits passes through int32 in both ALUs (R03.37; DS-only functions exempt). The input-modifier helpers are interpreted over a sign domain for the four ABS/NEG combinations (R03.38); SCC of 32-bit scalar shifts is decided on the 32-bit result (R03.39).",
+ "C04": " Packed VOP3P rows decode no ABS/OMOD (R04.25); a decoder that stores the raw NEG/ABS field derives the per-source flags and the printer arm of that format reads them (R04.26); the literal size step is judged with decoder helpers expanded at their call sites (R04.5); every operand constructor returns storage of that call (R04.27); an operand is widened under the width column of that operand (R04.28).",
  "C06": " A vector handler reads an operand once outside its lane loop only if the decoder of every format reaching the handler builds that operand as a non-register constant (R06.hoist).",
- "C10": " The buddy block serving a multi-page request has the order established by the search loop (1 << order) < numPages * pageSize (or c + bits.Len(uint(numPages-1))) and the free-list level is derived from it (R10.12).",
- "C12": " The engine hand-off (re-run request, claim of engineRunning) is decided only after the tick was scheduled, helpers expanded (R12.13); nothing is traced for a command after CommandQueue.Dequeue in the functions that retire it (R12.14); host data is encoded / decoded when a command runs, never in a function reachable from an exported Enqueue* (R12.15).",
- "C18": " The splitting loops of the driver's copy paths take min(remaining, bytes left in the page) per piece (R18.8, the check of R11.3): pages of distributed buffers and unified devices are not physically consecutive.",
- "C19": " The driver's one-page gate is closed only after a successful Send and reopened on every path of the acknowledgement handler (R19.8).",
+ "C10": " The buddy block serving a multi-page request has the order established by the search loop (1 << order) < numPages * pageSize (or c + bits.Len(uint(numPages-1))) and the free-list level is derived from it (R10.12); Distribute's pieces tile the buffer (R10.13).",
+ "C12": " The engine hand-off (re-run request, claim of engineRunning) is decided only after the tick was scheduled, helpers expanded (R12.13); nothing is traced for a command after CommandQueue.Dequeue in the functions that retire it (R12.14); host data is encoded / decoded when a command runs, never in a function reachable from an exported Enqueue* (R12.15); a consumed response counts as progress (R12.16).",
+ "C18": " The splitting loops of the driver's copy paths take min(remaining, bytes left in the page) per piece (R18.8, the check of R11.3): pages of distributed buffers and unified devices are not physically consecutive; the driver counts the work-groups it distributes with ceil(grid/wg) (R18.9).",
+ "C19": " The driver's one-page gate is closed only after a successful Send and reopened on every path of the acknowledgement handler (R19.8); every chunk request is routed by the address it carries (R19.9).",
 }
 
 PENDING = {}
